@@ -216,3 +216,11 @@ def h_programs(case: int) -> bool:
             LAST_DETAIL = f"{desc}: first applicable variant is {want}, the checked program calls {got}"
             return False
         return True
+
+
+def h_session() -> bool:
+    """every case of this shard, in order, in one interpreter session (native replay of failures that need the earlier cases)"""
+    for c in range(len(CASES)):
+        if not h_programs(c):
+            return False
+    return True
